@@ -14,26 +14,50 @@
 (* (-simulate, seeded) including partial consumption, abandonment,           *)
 (* interleaving of generators and adversarial repositioning of the shared    *)
 (* streams between any two steps, and checks the protocol invariants.        *)
+(*                                                                         *)
+(* Object lifetime is a dimension of the histories: the "held_*" calls act  *)
+(* on CONTAINER objects (relocation tables incl. RELR and the tables a      *)
+(* dynamic section hands out, symbol / version-symbol tables, dynamic       *)
+(* sections, version definition / requirement sections, note and attribute  *)
+(* sections) that the history obtains ONCE and keeps, so that every later    *)
+(* call meets whatever the earlier calls - complete, partial or abandoned   *)
+(* iterations, counts, random accesses whose nested iterators were drained  *)
+(* or only started - left behind in that object:                            *)
+(*   held_iter (generator)   iteration over container a                     *)
+(*   held_count              its number of items                            *)
+(*   held_get / held_first   random access to item b, nested iterators of    *)
+(*                           the result drained / only their first item     *)
+(*                           taken (the rest abandoned)                     *)
+(*   held_list               a complete iteration as one call               *)
+(* Their specification is the same history-free Answer / Item.  The         *)
+(* systematic patterns PH2-PH5 enumerate "abandon an iteration after n       *)
+(* items, then count / access / list / iterate the same object", "the same   *)
+(* access twice, consuming the first result in between", two interleaved     *)
+(* iterators and a query between two next() calls, for every container.     *)
 (***************************************************************************)
 EXTENDS Integers, Sequences, FiniteSets, TLC, Json, CSV, IOUtils
 
 CONSTANTS Depth, MaxGens, K,
-          Patterns    \* TRUE: enumerate the systematic generator patterns instead of simulating
+          Patterns,   \* TRUE: enumerate the systematic generator patterns instead of simulating
+          HK          \* held containers 0..HK-1 in the systematic patterns
 
 VARIABLES hist, gens, pick
 vars == <<hist, gens, pick>>
 
+HeldQueries == {"held_count", "held_get", "held_first", "held_list"}
 Queries == {"num_sections", "section_by_name", "get_section", "section_index", "num_segments", "get_segment",
             "symbol_by_name", "get_symbol", "num_symbols", "dyn_tag", "num_tags", "needed", "reloc_tables",
             "cu_at", "cu_containing", "top_die", "die_at", "die_attrs", "parent", "children", "follow_ref",
             "line_program", "cfi", "eh_cfi", "decoded", "aranges", "pubnames", "loc_of_die", "ranges_of_die",
             "versions", "hash_lookup", "attributes", "ehabi", "has_dwarf", "address_offsets", "section_in_segment",
             "section_data", "segment_data", "string_at",
-            \* a further DWARFInfo from the same file object (the contents of its sections: relocation is applied once per view)
-            "dwarf_again"}
+            \* a further DWARFInfo from the same file object (the contents of its sections: relocation is applied once per view);
+            \* b even: with the default flag, next to the first view; b odd: with relocate_dwarf_sections = FALSE, before or
+            \* after the relocating view exists (the flag of an earlier request must not stick)
+            "dwarf_again"} \cup HeldQueries
 GenKinds == {"iter_sections", "iter_segments", "iter_symbols", "iter_tags", "iter_notes", "iter_CUs", "iter_DIEs",
              "iter_children", "iter_siblings", "iter_location_lists", "iter_range_lists", "iter_relocations",
-             "iter_subsections", "iter_versions", "line_entries"}
+             "iter_subsections", "iter_versions", "line_entries", "held_iter"}
 Streams == {"elf", "dwarf", "all"}
 Wheres == {"zero", "mid", "end"}
 Ix == 0..(K - 1)
@@ -58,7 +82,33 @@ P3 == {<<H("start", k, a, b, 1, ""), H("advance", k, a, b, 1, ""), H("query", q,
 P4 == {<<H("query", q, a, b, 0, ""), x, H("query", q, a, b, 0, "")>> :
         q \in Queries, a \in PatIx, b \in PatIx,
         x \in {H("perturb", "all", 0, 0, 0, w) : w \in Wheres} \cup {H("query", "section_by_name", 1, 1, 0, ""), H("query", "die_at", 0, 1, 0, "")}}
-PatternSet == P1 \cup P2 \cup P3 \cup P4
+\* ---- held containers (object lifetime)
+HeldIx == 0..(HK - 1)
+HQ(q, a, b) == H("query", q, a, b, 0, "")
+HStart(a, g) == H("start", "held_iter", a, 0, g, "")
+HAdv(a, g) == H("advance", "held_iter", a, 0, g, "")
+HAbandon(g) == H("abandon", "held_iter", 0, 0, g, "")
+HAdvs(a, g, n) == [i \in 1..n |-> HAdv(a, g)]
+\* what a client may do with an object after giving up an iteration over it
+FollowUps(a) == {<<HQ("held_count", a, 0)>>, <<HQ("held_list", a, 0)>>}
+                \cup {<<HQ(q, a, b)>> : q \in {"held_get", "held_first"}, b \in {0, 1}}
+                \cup {<<HStart(a, 1)>> \o HAdvs(a, 1, 4)}
+\*  PH5  start, n next() calls, abandon, then two follow-ups on the same object (n >= 1: a generator that was never
+\*       advanced has not run)
+PH5 == UNION {{<<HStart(a, 1)>> \o HAdvs(a, 1, n) \o <<HAbandon(1)>> \o f1 \o f2 :
+                 n \in {1, 3}, f1 \in FollowUps(a), f2 \in FollowUps(a)} : a \in HeldIx}
+\*  PH2  two iterators over one object advanced alternately
+PH2 == {<<HStart(a, 1), HStart(a, 2), HAdv(a, 1), HAdv(a, 2), HAdv(a, 1), HAdv(a, 1), HAdv(a, 2), HAdv(a, 2), HAdv(a, 2),
+          HQ("held_count", a, 0), HAdv(a, 1)>> : a \in HeldIx}
+\*  PH3  a call on the object between two next() calls of a live iterator over it
+PH3 == {<<HStart(a, 1), HAdv(a, 1), HQ(q, a, b), HAdv(a, 1), HAdv(a, 1), HAdv(a, 1)>> :
+          a \in HeldIx, q \in HeldQueries, b \in {0, 1}}
+\*  PH4  the same access twice - the first result consumed (held_get) or only started (held_first) - directly and with
+\*       another call on the object in between
+PH4 == {<<HQ(q, a, b), HQ(q, a, b)>> : q \in {"held_get", "held_first"}, a \in HeldIx, b \in {0, 1, 2}}
+       \cup {<<HQ(q, a, b), HQ(q2, a, b2), HQ(q, a, b)>> :
+               q \in {"held_get", "held_first"}, a \in HeldIx, b \in {0, 1}, q2 \in HeldQueries, b2 \in {0, 1}}
+PatternSet == P1 \cup P2 \cup P3 \cup P4 \cup PH2 \cup PH3 \cup PH4 \cup PH5
 
 Init == /\ gens = <<>> /\ pick = ""
         /\ IF Patterns THEN hist \in PatternSet ELSE hist = <<>>
@@ -100,6 +150,17 @@ Spec == Init /\ [][Next]_vars
 GensBounded == Len(gens) <= MaxGens
 TakenMatchesHistory ==
   ~Patterns => \A g \in 1..Len(gens) : gens[g].taken <= Cardinality({i \in 1..Len(hist) : hist[i].op = "advance" /\ hist[i].name = gens[g].kind})
+\* the systematic patterns obey the frame protocol too: a frame is advanced / abandoned only while it is alive
+\* (frames are numbered by their position among the live ones, an abandoned frame's successors move down)
+PatternProtocol ==
+  Patterns => \A i \in 1..Len(hist) : hist[i].op \in {"advance", "abandon"} =>
+     LET live == Cardinality({j \in 1..(i - 1) : hist[j].op = "start"}) - Cardinality({j \in 1..(i - 1) : hist[j].op = "abandon"})
+     IN hist[i].g >= 1 /\ hist[i].g <= live
+\* a held pattern stays on one object: whatever follows the abandonment meets the state the abandoned iteration left
+HeldSameObject ==
+  (Patterns /\ \E i \in 1..Len(hist) : hist[i].op = "abandon") =>
+     \A i \in 1..Len(hist) : hist[i].op \in {"query", "start", "advance"} =>
+        /\ hist[i].name \in (HeldQueries \cup {"held_iter"}) /\ hist[i].a = hist[1].a
 \* the specification of every answer: a function of the query alone (history-free by construction);
 \* the k-th item of a generator is Item(kind, a, b, k)
 \* one emission per simulated behaviour: when the history is complete and ends with the final repositioning
